@@ -1478,6 +1478,10 @@ func pool(n uint64, f func(uint64)) {
 }
 
 func main() {
+	if _, ok := vk.InChild(); ok {
+		histChild()
+		return
+	}
 	run := vk.Start("C08")
 	groupsDir = filepath.Join(run.Scratch, "groups")
 	toolHome = filepath.Join(run.Scratch, "toolhome")
@@ -1515,6 +1519,7 @@ func main() {
 	pool(uint64(ntool), func(i uint64) { toolRoundTrip(run, i) })
 	pool(uint64(nedge), func(i uint64) { boundaryCase(run, i) })
 	pool(uint64(ndesc), func(i uint64) { modelCase(run, i) })
+	historyTier(run)
 
 	run.Set("descriptions", ndesc)
 	run.Set("tool_cases", ntool)
@@ -1540,7 +1545,7 @@ func main() {
 	run.FloorCounter("tool_near_misses_refused", int64(ntool*12))
 	run.Assume("stored pbkdf2 keys are derived with the standard library's crypto/pbkdf2 and bcrypt hashes with x/crypto/bcrypt; 'matches' for keys of 8 bytes or more is equality with the plaintext the record was built from (no collisions), for 1..7-byte keys it is equality of the derived key")
 	run.Assume("usernames that fail the documented path-traversal validation may be refused even when an entry matches; they are never required to be accepted")
-	run.Assume("the history clause (permissions unchanged after moderation of other users) and the websocket 'joined' observation are not covered by this command")
+	run.Assume("history clause: after random moderation actions by an operator on other members (real server, websocket), fresh logins of every entry must be granted exactly the configured set, observed in the 'joined' message")
 	run.Assume("galenectl cannot be given an empty or NUL-containing password on its command line; tool round trips use 1..60-byte passwords, bcrypt cost 4..10, pbkdf2 iterations 1..4096 x key 1..64 x salt 0..32")
 	run.Finish("exploration", "descriptions generated from (seed,index): 0..6 named users + optional wildcard user, each with one of 20 password encodings (plain string/object, pbkdf2, bcrypt, wildcard, absent, {}, type-less, null, 10 malformed variants) and a role name, no role or a raw permission array, allow-recording x unrestricted-tokens, 1 in 8 in the obsolete op/presenter/other format; loaded by the real loader and queried with each user's right password, near misses (prefix, suffix, case, NUL, empty, other user's, wildcard's, long, stored key, partial key collision), unknown / case-variant / empty / invalid usernames; plus galenectl hash-password round trips (algorithm x parameters, 20 near misses each) and hash-domain boundary cases; distinct_nontrivial = distinct (addressed entry's password kind, wildcard present, wildcard kind, role or raw, flags, credential class, addressed slot) tuples")
 }
